@@ -35,6 +35,10 @@ type StrV struct {
 	Len   *Term
 	IsLit bool
 	Lit   string
+	// Fmt: the string is the result of formatting this format string whose
+	// verbs are all numeric (%d, %x, %v of integers are not distinguished: only
+	// formats whose verbs are %d/%x/%c-free numerics are recorded)
+	Fmt string
 }
 
 // ArrV is a [N]byte value.
@@ -168,6 +172,11 @@ type Region struct {
 	C     *Term // contents, (Array Int Int), indexed by absolute offset inside the block
 	Base  *Term // own base array of a block returned by a contract call
 	Written bool // contents were updated after creation
+	// Escaped: a second reference to this block may exist (a slice of it was
+	// re-sliced, stored, converted or passed to a call).  While a fresh block
+	// has not escaped, the slice being appended to is its only reference, so
+	// whether append extends it in place or reallocates cannot be observed.
+	Escaped bool
 	Fresh bool  // allocated on this path after function entry
 	Input bool  // reachable from the parameters at entry
 	Virt  bool  // ghost sequence (spec function result)
@@ -306,7 +315,7 @@ func (u *Unit) valKey(st *State, v Val, depth int) string {
 			return "nilptr"
 		}
 		inner := u.valKey(st, u.loadPath(st, x), depth+1)
-		return fmt.Sprintf("ptr(%s,c%d%v->%s)", x.Nil.S, x.Cell.ID, x.Path, inner)
+		return fmt.Sprintf("ptr(%s->%s)", x.Nil.S, inner)
 	case IfaceV:
 		if x.Dyn != nil {
 			return fmt.Sprintf("if(%s,%s,%s)", x.Nil.S, x.Dyn.String(), u.valKey(st, x.V, depth+1))
